@@ -118,6 +118,27 @@ PROPS = {
         "assumptions": ["USD value of one holding fits int64 and stakes fit uint64 (DESIGN §8 preconditions)", "balances < 2^62",
                         "trigger condition (height % 144, snapshot taken before balance changes) is SyncBlock glue: see C15/C02 glue harness"],
     },
+    "C11": {
+        "asserts": ["C11.", "uncaught-panic"],
+        "harnesses": [
+            {"id": "rewards", "func": "VerifRewards", "pkg": NODE, "pkgname": "node", "load": ["./node"],
+             "params": {"quick": {"maxwinners": 3}, "thorough": {"maxwinners": 4}}, "must_cover": ["winners", "no-winners"], "max_witness_replays": 6},
+        ],
+        "bounds": {"quick": "ApplyGradedOPRBlock / ApplyGradedSPRBlock with an arbitrary verdict of 0..3 winners (payouts 0..2^58, payout address one of two addresses or unparsable), symbolic height and block time, prior balances symbolic",
+                   "thorough": "0..4 winners"},
+        "assumptions": ["the grading decision (which records win, how much) is dependency code: an arbitrary verdict object implementing the dependency's interfaces stands in for it (DESIGN §9)",
+                        "entry hashes of distinct winners are distinct; payouts are non-negative"],
+    },
+    "C15": {
+        "asserts": ["C15.", "uncaught-panic"],
+        "harnesses": [
+            {"id": "scheduled", "func": "VerifScheduled", "pkg": NODE, "pkgname": "node", "load": ["./node"],
+             "params": {"quick": {}, "thorough": {}}, "must_cover": ["dev", "mint", "nullify-mint"], "max_witness_replays": 6},
+        ],
+        "bounds": {"quick": "DevelopersPayouts at the first payout heights >= dev activation and >= 2.0.2 (heights are formatted into mock txids, hence concrete) with symbolic prior balances; MintTokensForBalance and NullifyMintedTokens at their heights with symbolic prior/remaining balances", "thorough": "same"},
+        "assumptions": ["address/percentage list and mint list are copied into the harness as specification; the code reads devs.go / mint.go",
+                        "trigger conditions (height equality / modulo in SyncBlock and DBlockSync) and NullifyBurnAddress need the glue harness"],
+    },
     "C13": {
         "asserts": ["C13.", "uncaught-panic"],
         "harnesses": [
